@@ -46,7 +46,6 @@ Definition ekind_name (k : ekind) : str :=
   | EFuncIntoStar => "func-into-star"
   | EStarInput => "star-input"
   | EMissingParensValues => "missing-parens-values"
-  | EInternalStar => "internal-star"
   | EFuel => "OUT-OF-FUEL"
   end%string.
 
